@@ -60,5 +60,18 @@ check("C16",
       technique="exhaustive enumeration of operation sequences up to a depth bound on the implementation against a reference model",
       engine="explore", design="3/C16")
 
+check("C11",
+      passes=[dict(name="C11", src=["harness/C11.cpp"] + ENV, variant="fast", shards={"quick": 8, "thorough": 16})],
+      rule="for each of 6 unqualified base types (built-in, pointer, class, array, function, as-type) and EVERY sequence of "
+           "<= 3 (quick) / <= 5 (thorough) successive get_qualified requests over the 7 non-empty qualifier sets, x {direct "
+           "request first / last} x {unrelated constructions interleaved / not}, on a fresh Lexicon: every prefix result is the "
+           "node of get_qualified(union, T), qualifiers()==union, main_variant()==T and is not a Qualified, the empty set is "
+           "refused at every stage and changes nothing. distinct_nontrivial = distinct (base, union, length) triples.",
+      text="The complete space of qualification chains up to the bound is executed on the real type factory and "
+           "compared with the normal form the interface documents.",
+      note="'refused' = any exception. Only the seven subsets of {const, volatile, restrict} exist as qualifier values.",
+      technique="exhaustive enumeration of request sequences up to a depth bound on the implementation against the documented normal form",
+      engine="explore", design="3/C11")
+
 # Properties not claimed (with the reason that goes to MANIFEST.not_applicable).
 NOT_CLAIMED = {}
